@@ -291,6 +291,14 @@ def run(ctx):
     ctx.rule("C04-IO", "samples read back from a file carry the same reference epoch (FITS epoch written as TCB MJD and read back as such; metadata restored) - shared with C12-PATHS.")
     from .C12 import check_paths
     check_paths(_Relabel(ctx, {"C12-PATHS": "C04-IO"}))
+    from .C07 import check_units_module
+    ctx.rule("C04-UNIT", "the MCMC model is built from the prior variables through units.to_unit: obj * unit(obj).to(target), not the inverse factor (shared with C07-TOUNIT).")
+    check_units_module(_Relabel(ctx, {"C07-TOUNIT": "C04-UNIT"}))
+    from . import _rej
+    from .C06 import check_site
+    ctx.rule("C04-LL", "the marginal ln-likelihood a returned row reports is the one computed for that row: ln_likelihood = L[G] at the accepted positions (shared with C06-SPACE).")
+    for mod_, name_ in _rej.SITES:
+        check_site(_Relabel(ctx, {"C06-SPACE": "C04-LL", "C06-FIELD": "C04-LL", "C06-ALL": "C04-LL"}), _rej.analyze(ctx.prog, mod_, name_))
     from .C18 import check_guards
     ctx.rule("C04-NORMAL", "the identity ln p(y|theta) = ln p(y|theta,x) + ln p(x|theta) - ln N(x|a,A) needs Gaussian linear priors: every validation guard of the prior "
                            "constructors (Normal-only linear parameters, required names, units) is in place (shared with C18-GUARD).")
